@@ -217,7 +217,7 @@ fn build_array_get(
     let element_size = builder.program_info.type_sizes[elem_ty];
     let mut casm_builder = CasmBuilder::with_capacity(10, 2);
     add_input_variables! {casm_builder,
-        deref_or_immediate index;
+        deref index;
         deref arr_start;
         deref arr_end;
         buffer(1) range_check;
